@@ -31,7 +31,7 @@ MembersOK(ev) == GcAsCode => \A b \in Brokers : ToSet(ev.members[b]) = members'[
 
 TrReset == IsEvent("reset") /\ loc' = [b \in Brokers |-> {}] /\ st' = [b \in Brokers |-> Nothing] /\ routes' = [b \in Brokers |-> {}]
               /\ bc' = [b \in Brokers |-> [n \in Brokers |-> Nothing]] /\ gs' = [b \in Brokers |-> [n \in Brokers |-> Nothing]]
-              /\ live' = [b \in Brokers |-> [n \in Brokers |-> FALSE]]
+              /\ live' = [b \in Brokers |-> [n \in Brokers |-> "none"]]
               /\ up' = [b \in Brokers |-> [n \in Brokers |-> b # n]] /\ members' = [b \in Brokers |-> {}]
               /\ wire' = [b \in Brokers |-> [n \in Brokers |-> <<>>]] /\ now' = 1 /\ merged' = 0
 TrSub     == IsEvent("sub")      /\ ClientSub(Ev.b, Ev.s)   /\ ObsOK(Ev)
